@@ -786,7 +786,8 @@ def run(ctx):
             ctx.label(f"{status}:{res['label']}")
             if status == "crash":
                 lst = ctx.extra.setdefault("crash_samples", [])
-                if len(lst) < 3:
+                if ctx.shard < 4 and not any(x["key"] == res["label"]
+                                             for x in lst):
                     lst.append({"key": res["label"],
                                 "text": res["text"][:300],
                                 "source": case["source"]})
